@@ -83,11 +83,13 @@ let show_outcome = function
   | ErrAttr IsPublic -> "attr:is_public" | ErrAttr IsUnlocked -> "attr:is_unlocked"
 
 let () = run_table [
-  (* octets of bytes(key.pubkey) and of bytes(key) as the model predicts them from the fields *)
+  (* octets of bytes(key.pubkey) and of bytes(key) as the model predicts them from the fields;
+     REFUSED = PGPKey.pubkey raises (a private key packet with opaque material has no public half) *)
   "export", (fun args -> let t = read_tkey args in
-      pr_opt hex_of_bytes_strict (export (pubkey_of t)) ^ " " ^ pr_opt hex_of_bytes_strict (export t));
+      (match pubkey_of t with None -> "REFUSED" | Some p -> pr_opt hex_of_bytes_strict (export p)) ^ " " ^ pr_opt hex_of_bytes_strict (export t));
   (* the twin's packets as (tag, body) without going through octets *)
-  "twin", (fun args -> let t = read_tkey args in show_pkts (List.map view (export_pkts (pubkey_of t))));
+  "twin", (fun args -> let t = read_tkey args in
+      (match pubkey_of t with None -> "REFUSED" | Some p -> show_pkts (List.map view (export_pkts p))));
   "packets", (function [h] -> let b = bytes_of_hex h in
       pr_opt show_pkts (parse_packets (nat_of_int (List.length b + 1)) b) | _ -> failwith "args");
   "parse", (function [h] -> pr_opt (fun (((c, a), m), rest) ->
